@@ -11,7 +11,7 @@ use std::cmp::Ordering;
 ///
 /// Handles:
 /// - Optional leading sign (+/-)
-/// - Leading zeros are significant for ordering
+/// - Leading zeros are ignored (`"007"` equals `"7"`); `"-0"` equals `"0"`
 /// - Returns `None` for invalid numeric strings
 ///
 /// # Examples
@@ -55,6 +55,10 @@ pub fn decimal_strcmp(a: &str, b: &str) -> Option<Ordering> {
 /// * `b` - Second number string (digits only, no sign)
 /// * `b_neg` - Whether second number is negative
 pub fn decimal_strcmp_with_sign(a: &str, a_neg: bool, b: &str, b_neg: bool) -> Ordering {
+    // A sign only matters for a non-zero magnitude: "-0" == "0"
+    let a_neg = a_neg && !is_zero_magnitude(a);
+    let b_neg = b_neg && !is_zero_magnitude(b);
+
     // Different signs: negative < positive
     match (a_neg, b_neg) {
         (true, false) => return Ordering::Less,
@@ -111,6 +115,10 @@ pub fn realnum_strcmp(a: &str, b: &str) -> Option<Ordering> {
 
 /// Compare two real number strings with pre-parsed signs
 pub fn realnum_strcmp_with_sign(a: &str, a_neg: bool, b: &str, b_neg: bool) -> Ordering {
+    // A sign only matters for a non-zero magnitude: "-0.0" == "0"
+    let a_neg = a_neg && !is_zero_magnitude(a);
+    let b_neg = b_neg && !is_zero_magnitude(b);
+
     // Different signs: negative < positive
     match (a_neg, b_neg) {
         (true, false) => return Ordering::Less,
@@ -118,16 +126,15 @@ pub fn realnum_strcmp_with_sign(a: &str, a_neg: bool, b: &str, b_neg: bool) -> O
         _ => {}
     }
 
-    // Find decimal point positions
-    let a_dot = a.find('.').unwrap_or(a.len());
-    let b_dot = b.find('.').unwrap_or(b.len());
-
-    let cmp = if a_dot == b_dot {
-        // Same integer part length - lexicographic comparison works
-        a.cmp(b)
-    } else {
-        // Different integer part lengths - longer integer part is larger
-        a_dot.cmp(&b_dot)
+    // Compare the integer parts as decimal magnitudes (leading zeros ignored), then the
+    // fraction digits with trailing zeros ignored ("1.5" == "1.50", ".5" == "0.5", "1." == "1")
+    let (a_int, a_frac) = split_realnum(a);
+    let (b_int, b_frac) = split_realnum(b);
+    let cmp = match compare_decimal_magnitude(a_int, b_int) {
+        Ordering::Equal => a_frac
+            .trim_end_matches('0')
+            .cmp(b_frac.trim_end_matches('0')),
+        other => other,
     };
 
     // For negative numbers, reverse the comparison
@@ -163,6 +170,19 @@ fn parse_sign(s: &str) -> Option<(&str, bool)> {
             }
         }
         _ => Some((s, false)),
+    }
+}
+
+// Helper: does the (unsigned) number consist of zeros only, i.e. is its value 0?
+fn is_zero_magnitude(s: &str) -> bool {
+    s.bytes().all(|c| c == b'0' || c == b'.')
+}
+
+// Helper: split an unsigned real number into (integer digits, fraction digits)
+fn split_realnum(s: &str) -> (&str, &str) {
+    match s.find('.') {
+        Some(dot) => (&s[..dot], &s[dot + 1..]),
+        None => (s, ""),
     }
 }
 
@@ -255,6 +275,24 @@ mod tests {
     fn test_realnum_strcmp_signed() {
         assert_eq!(realnum_strcmp("-1.5", "1.5"), Some(Ordering::Less));
         assert_eq!(realnum_strcmp("-1.5", "-2.5"), Some(Ordering::Greater));
+    }
+
+    #[test]
+    fn test_realnum_strcmp_by_value() {
+        assert_eq!(realnum_strcmp("1.5", "1.50"), Some(Ordering::Equal));
+        assert_eq!(realnum_strcmp("1", "1.0"), Some(Ordering::Equal));
+        assert_eq!(realnum_strcmp("01", "1"), Some(Ordering::Equal));
+        assert_eq!(realnum_strcmp("007.5", "10"), Some(Ordering::Less));
+        assert_eq!(realnum_strcmp(".5", "0.5"), Some(Ordering::Equal));
+        assert_eq!(realnum_strcmp("1.", "1"), Some(Ordering::Equal));
+        assert_eq!(realnum_strcmp("1.05", "1.5"), Some(Ordering::Less));
+        assert_eq!(realnum_strcmp("-1.50", "-1.5"), Some(Ordering::Equal));
+        assert_eq!(realnum_strcmp("-0", "0"), Some(Ordering::Equal));
+        assert_eq!(realnum_strcmp("-0.0", "+0"), Some(Ordering::Equal));
+        assert_eq!(realnum_strcmp("-0.1", "0"), Some(Ordering::Less));
+        assert_eq!(decimal_strcmp("-0", "0"), Some(Ordering::Equal));
+        assert_eq!(decimal_strcmp("-00", "+0"), Some(Ordering::Equal));
+        assert_eq!(decimal_strcmp("-1", "0"), Some(Ordering::Less));
     }
 
     #[test]
